@@ -124,6 +124,31 @@ def patch_source(src, entries, fname='?'):
     return out
 
 
+def extract_functions(src, names, fname='?'):
+    """Return the verbatim text of the definitions of `names` (return type .. closing brace),
+    in the order given.  Everything else of the file is dropped (stated in the evidence)."""
+    clean = _strip_comments_keep_layout(src)
+    out = []
+    for name in names:
+        b, e = find_function_body(clean, name)
+        # walk back from the body to the start of the declaration: previous '}' ';' or '#...' line
+        m = None
+        for m in re.finditer(r'\b' + re.escape(name) + r'\s*\(', clean[:b]):
+            pass
+        if m is None:
+            raise ExtractionError("%s: cannot locate %s" % (fname, name))
+        i = m.start()
+        j = max(clean.rfind('}', 0, i), clean.rfind(';', 0, i))
+        # skip preprocessor lines between j and i
+        start = j + 1
+        seg = clean[start:i]
+        k = seg.rfind('\n#')
+        if k >= 0:
+            start = start + seg.find('\n', k + 1) + 1
+        out.append(src[start:e].strip('\n') + '\n')
+    return '\n'.join(out)
+
+
 if __name__ == '__main__':
     import sys, json
     src = open(sys.argv[1]).read()
